@@ -221,3 +221,12 @@ Proof.
 Qed.
 
 End Conc.
+
+(* ---------------------------------------------------------------------------------------- *)
+(* rushed runs *)
+
+Theorem rush_oracle_sound : forall late, rush_oracle late = true <-> rush_spec late.
+Proof.
+  intro late. unfold rush_oracle, rush_spec. rewrite forallb_forall.
+  split; intros H l Hl; specialize (H l Hl); destruct l; try reflexivity; discriminate.
+Qed.
